@@ -67,7 +67,7 @@ inductive Op where
   | write (bs : List Nat)        -- device write
   | seek (p : SeekFrom)          -- device seek
   | flush                        -- device flush
-  | now                          -- TimeProvider::get_current_date_time  (returns the clock counter, then ticks)
+  | now                          -- TimeProvider::get_current_date_time  (returns the clock counter; it advances per API operation, see `resetOp`)
   | today                        -- TimeProvider::get_current_date
   | getFs                        -- read the mounted file system's state
   | setFs (fs : FsState)         -- update its interior-mutable part
@@ -152,9 +152,12 @@ structure Dev where
 
 namespace Dev
 
+def clockStep : Nat := 2010
+
 def resetOp (d : Dev) (failAt : Option Nat := none) : Dev :=
   { d with calls := 0, reads := 0, writes := 0, seeks := 0, flushes := 0, callsInDrop := 0,
-           failAt := failAt, fault := none, log := [], dropDepth := 0 }
+           failAt := failAt, fault := none, log := [], dropDepth := 0,
+           clock := if d.tick then d.clock + clockStep else d.clock }
 
 def count (d : Dev) (k : CallKind) : Dev :=
   let d := { d with calls := d.calls + 1,
@@ -167,7 +170,6 @@ def count (d : Dev) (k : CallKind) : Dev :=
 
 end Dev
 
-def clockStep : Nat := 2010
 
 /-- payload of the error a negative device seek produces (harness: `u64::MAX - 3`) -/
 def negSeekErr : Nat := 18446744073709551612
@@ -204,8 +206,8 @@ def stepOp : (o : Op) → Dev → Except Err (Resp o) × Dev
         let t : Int := (d.img.size : Int) + x
         if t < 0 then (.error (.io negSeekErr), d) else (.ok t.toNat, { d with pos := t.toNat })
   | .flush, d => devCall .f d fun d => (.ok (), { d with log := .flush :: d.log })
-  | .now, d => (.ok d.clock, if d.tick then { d with clock := d.clock + clockStep } else d)
-  | .today, d => (.ok d.clock, if d.tick then { d with clock := d.clock + clockStep } else d)
+  | .now, d => (.ok d.clock, d)
+  | .today, d => (.ok d.clock, d)
   | .getFs, d => (.ok d.fs, d)
   | .setFs fs, d => (.ok (), { d with fs := fs })
 
